@@ -29,6 +29,7 @@ package socks5
 //@   ensures ret != nil && ret.Ver == version && ret.NMethods == len(methods) % 256 && ret.Methods == methods
 //@ func (*MethodRequest).WriteTo
 //@   sig r, w
+//@   locals buf: []byte ;; n: int ;; err: error
 //@   props C09 C08 C01 C02 C12 C14
 //@   observe Write
 //@   requires r.NMethods == len(r.Methods)
@@ -64,6 +65,7 @@ package socks5
 //@   ensures ret1 == nil && network == "tcp" ==> isptr(ret0, net.TCPConn)
 //@ func (*Scanner).Scan
 //@   sig s, ctx, r
+//@   locals conn: net.Conn ;; done: chan interface{} ;; sconn: *socksConn ;; req: *MethodRequest ;; reply: *MethodReply
 //@   props C09 C08 C01 C02 C12 C14
 //@   observe fmt.Sprintf, DialContext, SetLinger, NewMethodRequest, WriteTo, ReadFrom, Close, String
 //@   entry row dialfail: [call fmt.Sprintf("%s:%d", bind_a) as (addr) ; call DialContext(s.dialer, ctx, "tcp", addr) as (conn, e)]
@@ -103,6 +105,7 @@ package socks5
 //@   ensures s.dataTimeout == timeout
 //@ func NewScanner
 //@   sig opts
+//@   locals s: *Scanner ;; o: ScannerOption
 //@   props C09 C08 C01 C02 C12 C14
 //@   observe ScannerOption
 //@   entry row init:  [] when s.dialer != nil && fresh(s.dialer) -> loop 0
